@@ -306,6 +306,8 @@ class Emit:
     # ---- imperative bodies (loops with mutable vectors): state-passing translation
     def lhs_name(self, x):
         """the Lean variable a mutable place is translated to: a local, or a field path listed in `fieldpath`"""
+        while x[0] == "mcall" and x[2] in self.cfg.get("lockmethods", ()) and not x[3]:
+            x = x[1]                                      # `self.store.write().unwrap()`: the place behind the lock
         d = self.dotted(x)
         if d is None:
             return None
@@ -346,12 +348,55 @@ class Emit:
                     if br is not None:
                         for v in self.assigned(self.as_stmts(br)):
                             add(v)
+        def walk_value(x):                                # a value-carrying `if` / `if let` / `match` / block with effects inside
+            if x[0] == "block":
+                for v in self.assigned(list(x[1])):
+                    add(v)
+                if x[2] is not None:
+                    walk_value(x[2])
+            elif x[0] == "if":
+                walk_value(x[2]); x[3] is not None and walk_value(x[3])
+            elif x[0] == "iflet":
+                walk_value(x[3]); x[4] is not None and walk_value(x[4])
+            elif x[0] == "match":
+                for _, b in x[2]:
+                    walk_value(b)
         for s in stmts:
             if s[0] == "let":
+                if self.cfg.get("value_effects"):
+                    r = s[2]
+                    if r[0] == "mcall" and r[2] in self.cfg.get("effmethods", {}) and self.eff_recv(r[1]) is not None:
+                        add(self.eff_recv(r[1]))
+                    elif r[0] in ("if", "iflet", "match", "block"):
+                        walk_value(r)
                 declared |= self.pvars(s[1])
             else:
-                walk(s[1])
+                x = s[1]
+                if self.cfg.get("value_effects") and x[0] == "mcall" and x[2] in ("unwrap", "expect") and x[1][0] == "mcall" \
+                        and x[1][2] in self.cfg.get("optmut", {}) and self.lhs_name(x[1][1]) is not None:
+                    add(self.lhs_name(x[1][1]))
+                walk(x)
         return out
+
+    def eff_recv(self, x):
+        """the state variable a `&mut self` method call writes: a local, a listed place, or `selfvar` for `self`"""
+        if x == ("path", ["self"]) and self.cfg.get("selfvar"):
+            return self.cfg["selfvar"]
+        return self.lhs_name(x)
+
+    def valbranch(self, x, w, wrap):
+        """a value-carrying branch with effects: the Lean value is `wrap((value, w…))` with `w` the outer variables it assigns"""
+        if x[0] == "block":
+            if x[2] is None:
+                raise Unsupported("value branch without a value")
+            return "(" + self.imp(list(x[1]), self.valbranch(x[2], w, wrap)) + ")"
+        if x[0] == "if" and x[3] is not None:
+            return "(if %s then %s else %s)" % (self.e(x[1]), self.valbranch(x[2], w, wrap), self.valbranch(x[3], w, wrap))
+        if x[0] == "iflet" and x[4] is not None:
+            return "(match %s with\n    | %s => %s\n    | _ => %s)" % (self.e(x[2]), self.pat(x[1]), self.valbranch(x[3], w, wrap), self.valbranch(x[4], w, wrap))
+        if x[0] == "match":
+            return "(match %s with%s)" % (self.e(x[1]), "".join("\n    | %s => %s" % (self.pat(p_), self.valbranch(b, w, wrap)) for p_, b in x[2]))
+        return wrap(self.tup([self.e(x)] + w))
 
     def mtype(self, ty):
         """`SVector<f32, N>` / `SMatrix<f32, R, C>` as a Lean matrix type over the index types of the configuration"""
@@ -395,6 +440,19 @@ class Emit:
             return result
         s, rest = stmts[0], stmts[1:]
         tailstr = lambda: self.imp(rest, result)
+        if s[0] == "let" and self.cfg.get("lockmethods") and s[2][0] == "mcall" and s[2][2] in self.cfg["lockmethods"] and self.lhs_name(s[2]) is not None:
+            return "let %s := %s;\n    %s" % (self.pat(s[1]), self.lhs_name(s[2]), tailstr())      # `let lock = self.store.read().unwrap();`: a name for the place
+        if s[0] == "let" and self.cfg.get("value_effects") and s[2][0] == "mcall" and s[2][2] in self.cfg.get("effmethods", {}) \
+                and isinstance(self.cfg["effmethods"][s[2][2]], tuple) and self.eff_recv(s[2][1]) is not None:
+            v = self.eff_recv(s[2][1])                       # `let x = self.m(args);` for a total `&mut self` method with a value: `(state', value)`
+            args = [v] + [self.atom(a) for a in s[2][3]]
+            return "let (%s, %s) := (%s);\n    %s" % (v, self.pat(s[1]), self.cfg["effmethods"][s[2][2]][0].format(*args), tailstr())
+        if s[0] == "let" and self.cfg.get("value_effects") and s[2][0] in ("if", "iflet", "match") and self.assigned([("let", ("pwild",), s[2])]):
+            w = self.assigned([("let", ("pwild",), s[2])])
+            if self.cfg.get("unwrap_panics"):                # the branches may panic: they yield `some (value, w…)` or `none`
+                return "(match %s with\n    | some %s => (%s)\n    | none => none)" % (
+                    self.valbranch(s[2], w, lambda t: "(some %s)" % t), self.tup([self.pat(s[1])] + w), tailstr())
+            return "let %s := %s;\n    %s" % (self.tup([self.pat(s[1])] + w), self.valbranch(s[2], w, lambda t: t), tailstr())
         if s[0] == "let" and self.cfg.get("unwrap_panics") and s[2][0] == "mcall" and s[2][2] in ("unwrap", "expect"):
             # `let pat = e.unwrap();` in a function whose panics are modelled as `none`: the rest runs on `some`
             inner = s[2][1]
@@ -467,6 +525,20 @@ class Emit:
             argi, tmpl = self.cfg["selfmut"][x[2]]
             v = argi if isinstance(argi, str) else self.lhs_name(x[3][argi])
             return "let %s := (%s);\n    %s" % (v, tmpl.format(*[self.atom(a) for a in x[3]]), tailstr())
+        if x[0] == "mcall" and x[2] in ("unwrap", "expect") and x[1][0] == "mcall" and x[1][2] in self.cfg.get("optmut", {}) \
+                and self.lhs_name(x[1][1]) is not None:        # `place.m(args).unwrap();`: the mutation may fail, which panics here
+            v = self.lhs_name(x[1][1])
+            args = [v] + [self.atom(a) for a in x[1][3]]
+            return "(match %s with\n    | some %s => (%s)\n    | none => none)" % (self.cfg["optmut"][x[1][2]].format(*args), v, tailstr())
+        if x[0] == "for" and x[2][0] != "range" and self.cfg.get("unwrap_panics") and self.cfg.get("value_effects"):
+            # a loop whose body may panic: the fold carries `some state` until an iteration yields `none`
+            body = self.as_stmts(x[3])
+            w = [v for v in self.assigned(body) if v not in {ident(n) for n in self.pvars(x[1])}]
+            if not w:
+                return tailstr()
+            t = self.tup(w)
+            return "(match (List.foldl (fun __acc %s => (match __acc with\n    | none => none\n    | some %s => (%s))) (some %s) %s) with\n    | some %s => (%s)\n    | none => none)" % (
+                self.pat(x[1]), t, self.imp(body, "some " + t), t, self.atom(x[2]), t, tailstr())
         if x[0] == "for" and x[2][0] != "range":
             # `for <pattern> in <list expression>`: a fold over the list
             body = self.as_stmts(x[3])
@@ -1295,6 +1367,42 @@ KERNELS += [
          method={"into_iter": "{0}", "filter": "List.filter {1} {0}", "collect": "{0}", "is_some": "Option.isSome {0}"}),
 ]
 
+# ---- the per-detection loop of `Sort::predict_with_scene`: apply the winners, one record per detection (C01)
+def pick_apply(stmts):
+    """from `let mut res = Vec::default();` to the loop that fills it (the tail `res` is the value)"""
+    for i, st in enumerate(stmts):
+        if st[0] == "let" and st[1] == ("pvar", "res"):
+            return [x for x in stmts[i:] if not (x[0] == "expr" and x[1] == ("path", ["res"]))]
+    return []
+APPLY_SIG = ("{T DB R : Type} (trackId : T → Nat) (setTrackId : T → Nat → T) (addTrack : DB → T → Option DB) (mergeExternal : DB → Nat → T → Option DB)\n"
+             "    (shardOf : DB → Nat → List (Nat × T)) (recOf : T → R) (winners : List (Nat × List Nat)) (tracks : List T) (ctr : Nat) (db : DB) : Option (Nat × DB × List R)")
+APPLY = [
+    dict(group="Apply", name="sort_gen_track_id", file="trackers/sort/simple_api.rs", impl=r"impl Sort \{", fn="gen_track_id", imperative=True,
+         sig="(ctr : Nat) : Nat × Nat", fieldpath={"self.track_id": "ctr"}, retwrap="(ctr, {0})"),
+    dict(group="Apply", name="sort_apply_winners", file="trackers/sort/simple_api.rs", impl=r"impl Sort \{", fn="predict_with_scene", pick=pick_apply,
+         imperative=True, unwrap_panics=True, value_effects=True, result="some (ctr, db, res)", sig=APPLY_SIG,
+         selfvar="ctr", fieldpath={"self.store": "db"}, lockmethods=("read", "write", "unwrap"),
+         method={"get_track_id": "trackId {0}", "get": "mapGet {0} {1}", "get_store": "shardOf {0} {1}"}, cast={"usize": "{0}", "u64": "{0}"},
+         call={"Vec::default": "[]", "SortTrack::from": "recOf {0}", "Some": "some {0}"},
+         effmethods={"gen_track_id": ("sort_gen_track_id {0}",)}, mutmethods={"set_track_id": "setTrackId {0} {1}"},
+         optmut={"add_track": "addTrack {0} {1}", "merge_external": "mergeExternal {0} {1} {2}"}),
+]
+APPLY_V_SIG = ("{T DB R V : Type} [Inhabited V] (trackId : T → Nat) (setTrackId : T → Nat → T) (cloneT : T → T) (addVotingObs : T → Option V → Option T)\n"
+               "    (addTrack : DB → T → Option DB) (mergeExternal : DB → Nat → T → Option DB)\n"
+               "    (shardOf : DB → Nat → List (Nat × T)) (recOf : T → R) (winners : List (Nat × List (Nat × V))) (tracks : List T) (ctr : Nat) (db : DB) : Option (Nat × DB × List R)")
+APPLY += [
+    dict(group="Apply", name="visual_gen_track_id", file="trackers/visual_sort/simple_api.rs", impl=r"impl VisualSort \{", fn="gen_track_id", imperative=True,
+         sig="(ctr : Nat) : Nat × Nat", fieldpath={"self.track_id": "ctr"}, retwrap="(ctr, {0})"),
+    dict(group="Apply", name="visual_apply_winners", file="trackers/visual_sort/simple_api.rs", impl=r"impl VisualSort \{", fn="predict_with_scene", pick=pick_apply,
+         imperative=True, unwrap_panics=True, value_effects=True, result="some (ctr, db, res)", sig=APPLY_V_SIG,
+         selfvar="ctr", fieldpath={"self.store": "db"}, lockmethods=("read", "write", "unwrap"),
+         method={"get_track_id": "trackId {0}", "get": "mapGet {0} {1}", "get_store": "shardOf {0} {1}", "clone": "cloneT {0}"}, cast={"usize": "{0}", "u64": "{0}"},
+         call={"Vec::default": "[]", "SortTrack::from": "recOf {0}", "Some": "some {0}", "VisualAttributesUpdate::new_voting_type": "{0}"},
+         path={"None": "none"},
+         effmethods={"gen_track_id": ("visual_gen_track_id {0}",)}, mutmethods={"set_track_id": "setTrackId {0} {1}"},
+         optmut={"add_track": "addTrack {0} {1}", "merge_external": "mergeExternal {0} {1} {2}", "add_observation": "addVotingObs {0} {4}"}),
+]
+
 IDLE = [
     dict(group="Idle", name="idle_lookup_" + nm, file=f, impl=impl, fn="lookup",
          sig="(epochs : Option (List (Nat × Nat))) (maxIdle : Nat) (self : Nat) (attr_scene attr_last : Nat) : Bool",
@@ -1410,7 +1518,7 @@ LOGIC = [
 def gen(repo, cfgs, header, footer):
     out, unread = [header], []
     for c in cfgs:
-        if c in LOGIC or c in TRACK or c in VOTING or c in TRACK_DIST or c in STORE or c in RECORDS or c in AUTOWASTE or c in VISVOTE or c in STORE_MAP or c in STORE_ADD or c in SORTVOTE or c in IDLE or c in TRACK_BUILD:
+        if c in LOGIC or c in TRACK or c in VOTING or c in TRACK_DIST or c in STORE or c in RECORDS or c in AUTOWASTE or c in VISVOTE or c in STORE_MAP or c in STORE_ADD or c in SORTVOTE or c in IDLE or c in TRACK_BUILD or c in APPLY:
             c = dict(c, scalar=c.get("scalar", "Rat"))
         path = os.path.join(repo, "src", c["file"])
         try:
@@ -1693,6 +1801,7 @@ def main():
     jobs.append(("LStoreMap.lean", STORE_MAP + STORE_ADD, "import SimVerif.Model.Track\n" + HEADER_L + PRELUDE_STOREMAP, "SimVerif.Gen.L"))
     jobs.append(("LSortVoting.lean", SORTVOTE, "import SimVerif.Gen.LBase\n" + HEADER_L + PRELUDE_SORTVOTE, "SimVerif.Gen.L"))
     jobs.append(("LIdle.lean", IDLE, "import SimVerif.Gen.LEpoch\nimport SimVerif.Gen.LEpochDb\n" + HEADER_L, "SimVerif.Gen.L"))
+    jobs.append(("LApply.lean", APPLY, "import SimVerif.Gen.LBase\n" + HEADER_L, "SimVerif.Gen.L"))
     jobs.append(("LTrackBuild.lean", TRACK_BUILD, "import SimVerif.Model.Track\n" + HEADER_L + "open SimVerif\n", "SimVerif.Gen.L"))
     jobs.append(("LTrackDist.lean", TRACK_DIST, "import SimVerif.Gen.LTrack\nimport SimVerif.Model.Track\n" + HEADER_L + PRELUDE_TRACKDIST, "SimVerif.Gen.L"))
     jobs.append(("LConstr.lean", [c for c in LOGIC if c["group"] == "Constr"], HEADER_L + PRELUDE_DEDUP, "SimVerif.Gen.L"))
